@@ -20,9 +20,15 @@ def _nonempty(cache):
   return sorted(m for m, d in cache.items() if d)
 
 
-def _drain_all(mod, strat, c0, c1, c2, rnd):
+def _drain_all(mod, strat, c0, c1, c2, rnd, refuse=False):
   cache = _fill(mod, strat, [c0, c1, c2], 10 ** 6, 0)
   mod.choice = lambda seq: seq[rnd % len(seq)]
+  if refuse and cache.size > 0:
+    # bounded cache that is exactly full: a datapoint for a NEW metric is refused and must leave no trace
+    L.apply_limits(cache.size, False)
+    cache.store('zz.new', (999, 9))
+    L.apply_limits(float('inf'), False)
+    cover('refused')
   expected = L.contents(cache)
   n_metrics = len(_nonempty(cache))
   seen = {}
@@ -47,18 +53,58 @@ def _drain_all(mod, strat, c0, c1, c2, rnd):
   return ok and len(seen) == n_metrics
 
 
-def C17_drain_all(strat: int, c0: int, c1: int, c2: int, rnd: int) -> bool:
+def C17_drain_all(strat: int, c0: int, c1: int, c2: int, rnd: int, refuse: bool) -> bool:
   """
   pre: 0 <= strat <= 6
   pre: 0 <= c0 <= 3 and 0 <= c1 <= 3 and 0 <= c2 <= 3
   pre: 0 <= rnd <= 5
   post: __return__
   """
-  return _drain_all(L.SHADOW, strat, c0, c1, c2, rnd)
+  return _drain_all(L.SHADOW, strat, c0, c1, c2, rnd, refuse)
 
 
-def replay_drain_all(strat, c0, c1, c2, rnd):
-  return _drain_all(L.real_cache, strat, c0, c1, c2, rnd)
+def replay_drain_all(strat, c0, c1, c2, rnd, refuse):
+  return _drain_all(L.real_cache, strat, c0, c1, c2, rnd, refuse)
+
+
+def _max_seq(mod, strat, c0, c1, c2, ops):
+  """max / bucketmax under drains and further stores (incl. re-stores of a drained metric): every
+  drain returns a metric holding the CURRENT maximum number of datapoints."""
+  cache = _fill(mod, strat, [c0, c1, c2], 10 ** 6, 0)
+  nxt = 50
+  for op in ops:
+    if op == 0:
+      counts = dict((m, len(d)) for m, d in cache.items() if d)
+      metric, batch = cache.drain_metric()
+      if not counts:
+        if metric is not None:
+          return False
+        continue
+      cover('drained')
+      if metric is None or not batch:
+        raise AssertionError('nothing drained although the cache holds data')
+      if counts.get(metric) != max(counts.values()) or len(batch) != counts[metric]:
+        raise AssertionError('drained %r with %d datapoints while the maximum is %d' % (metric, len(batch), max(counts.values())))
+    else:
+      m = NAMES[op - 1]
+      cache.store(m, (BASE[m] + nxt, nxt))
+      nxt += 1
+  return True
+
+
+def C17_max_seq(strat: int, c0: int, c1: int, c2: int, o0: int, o1: int, o2: int, o3: int, n: int) -> bool:
+  """
+  pre: strat == 2 or strat == 6
+  pre: 0 <= c0 <= 3 and 0 <= c1 <= 3 and 0 <= c2 <= 2
+  pre: 0 <= o0 <= 3 and 0 <= o1 <= 3 and 0 <= o2 <= 3 and 0 <= o3 <= 3
+  pre: 1 <= n <= 4
+  post: __return__
+  """
+  return _max_seq(L.SHADOW, strat, c0, c1, c2, [o0, o1, o2, o3][:n])
+
+
+def replay_max_seq(strat, c0, c1, c2, o0, o1, o2, o3, n):
+  return _max_seq(L.real_cache, strat, c0, c1, c2, [o0, o1, o2, o3][:n])
 
 
 def _pass_order(mod, strat, c0, c1, c2, ops):
@@ -106,7 +152,8 @@ def replay_pass_order(strat, c0, c1, c2, o0, o1, o2, o3, o4, n):
 
 def _lag(mod, c0, c1, c2, now, lag, ndrains):
   cache = _fill(mod, 4, [c0, c1, c2], now, lag)
-  eligible = [m for m in _nonempty(cache) if now - BASE[m] > lag]
+  # lag 0 means no filter at all: even datapoints stamped ahead of the writer's clock are drained
+  eligible = [m for m in _nonempty(cache) if lag == 0 or now - BASE[m] > lag]
   present = _nonempty(cache)
   ok = True
   got = []
@@ -130,7 +177,7 @@ def _lag(mod, c0, c1, c2, now, lag, ndrains):
 def C17_lag(c0: int, c1: int, c2: int, now: int, lag: int, ndrains: int) -> bool:
   """
   pre: 0 <= c0 <= 2 and 0 <= c1 <= 2 and 0 <= c2 <= 2
-  pre: lag >= 1
+  pre: lag >= 0
   pre: now >= 0
   pre: 1 <= ndrains <= 4
   post: __return__
@@ -159,11 +206,16 @@ _ASSUME = ['cache filled by real store() calls: 3 metrics with symbolic datapoin
            'random.choice -> symbolic index; time.time -> the symbolic/concrete `now` given to the harness (ints)']
 
 HARNESSES = [
-  H('C17_drain_all', quick=dict(timeout=240, shards=_S), thorough=dict(timeout=600, shards=_S), covers=['emptied'],
+  H('C17_drain_all', quick=dict(timeout=240, shards=_S), thorough=dict(timeout=600, shards=_S), covers=['emptied', 'refused'],
     replay='replay_drain_all',
     encodes=['carbon.cache:_MetricCache.drain_metric', 'carbon.cache:_MetricCache.pop', 'carbon.cache:*Strategy.choose_item',
              'carbon.cache:BucketMaxStrategy.store'],
     assumptions=_ASSUME),
+  H('C17_max_seq', quick=dict(timeout=280, shards=[('s%d_o%d' % (st, o), 'strat == %d and o0 == %d' % (st, o)) for st in (2, 6) for o in range(4)], extra_pre=['n <= 3', 'c2 <= 1']),
+    thorough=dict(timeout=900, shards=[('s%d_o%d_p%d' % (st, o, q), 'strat == %d and o0 == %d and o1 == %d' % (st, o, q)) for st in (2, 6) for o in range(4) for q in range(4)]),
+    covers=['drained'], replay='replay_max_seq', twin_pre=['strat == 2 and o0 == 0'],
+    encodes=['carbon.cache:MaxStrategy.choose_item', 'carbon.cache:BucketMaxStrategy.choose_item / store', 'carbon.cache:_MetricCache.drain_metric'],
+    assumptions=_ASSUME + ['<= 3 (quick) / 4 (thorough) operations drain / store-new-datapoint (incl. re-stores of a drained metric) on top of the symbolic fill']),
   H('C17_pass_order', quick=dict(timeout=280, shards=_SP, extra_pre=['c2 <= 1']), thorough=dict(timeout=900, shards=_SP5),
     covers=['pass_start'], replay='replay_pass_order',
     encodes=['carbon.cache:NaiveStrategy', 'carbon.cache:SortedStrategy', 'carbon.cache:TimeSortedStrategy',
